@@ -2,7 +2,7 @@
 
 spec/CssRewrite.tla is the reference transducer; spec/MCCss.tla enumerates stylesheets (selectors:
 every pair of compounds joined in every way, nested in selector functions to depth 3 and in every
-rule-bearing at-rule; values: every token kind, calc with nested parentheses, nested functions;
+rule-bearing at-rule; values: every token kind, calc with nested parentheses, nested functions; calc: every operand kind on either side of every operator at the top of calc(), in parentheses and in functions nested in it;
 spelling-sensitive values) x option sets with the two expected token sequences and the gap
 requirements (required / forbidden / free).  Both real outputs are re-tokenised by cssparser and
 compared token by token; required gaps must hold whitespace, forbidden gaps none."""
@@ -11,8 +11,8 @@ import csscommon
 
 def run(tier, seed, replay):
     return csscommon.run_css(
-        "C08", tier, seed, replay, ["sel", "tok", "val"], ["tokens", "gaps"],
+        "C08", tier, seed, replay, ["sel", "tok", "val", "calc"], ["tokens", "gaps"],
         "cases = MCCss families sel (compound pairs x combinators x nesting x wrappers), tok (token kinds, spelling-sensitive "
         "values, at-rules) and val (numeric tokens x value shapes) x option sets, each concretised with seeded whitespace, "
         "comments and line breaks; non-trivial = distinct (source, options)",
-        samples={"sel": {"quick": 8, "thorough": 2}, "val": {"quick": 12, "thorough": 3}}, variants=1 if tier == "quick" else 2)
+        samples={"sel": {"quick": 8, "thorough": 2}, "val": {"quick": 12, "thorough": 3}, "calc": {"quick": 3, "thorough": None}}, variants=1 if tier == "quick" else 2)
